@@ -567,3 +567,98 @@ pub fn salt_symbolic() {
         SALT = kani::any();
     }
 }
+
+// ---------------------------------------------------------------------------------------------
+// RecEndsN: records only the FIRST and the LAST digest query (head, length, fingerprint) and counts
+// all of them; digests are havoc and the Winternitz chain is one havoc step. Cheap enough to observe
+// the message-digest and public-key-candidate pre-images of a whole LM-OTS operation.
+// ---------------------------------------------------------------------------------------------
+pub struct RecEnds {
+    pub first: RecQuery,
+    pub last: RecQuery,
+    pub count: usize,
+    pub chains: usize,
+}
+pub static mut REC_ENDS: RecEnds = RecEnds {
+    first: RecQuery { head: [0u8; REC_PREFIX], len: 0, fp: [0u8; 32], kind: 0, from: 0, to: 0 },
+    last: RecQuery { head: [0u8; REC_PREFIX], len: 0, fp: [0u8; 32], kind: 0, from: 0, to: 0 },
+    count: 0,
+    chains: 0,
+};
+pub fn rec_ends_reset() {
+    unsafe {
+        REC_ENDS.count = 0;
+        REC_ENDS.chains = 0;
+    }
+}
+#[derive(Debug, Clone, PartialEq)]
+pub struct EndsCore {
+    head: [u8; REC_PREFIX],
+    len: usize,
+}
+impl EndsCore {
+    fn new() -> Self {
+        EndsCore { head: [0u8; REC_PREFIX], len: 0 }
+    }
+    fn absorb(&mut self, data: &[u8]) {
+        if self.len < REC_PREFIX {
+            let take = core::cmp::min(REC_PREFIX - self.len, data.len());
+            self.head[self.len..self.len + take].copy_from_slice(&data[..take]);
+        }
+        self.len += data.len();
+    }
+    fn emit(&self) -> [u8; 32] {
+        unsafe {
+            let q = RecQuery { head: self.head, len: self.len, fp: [0u8; 32], kind: 0, from: 0, to: 0 };
+            if REC_ENDS.count == 0 {
+                REC_ENDS.first = q;
+            }
+            REC_ENDS.last = q;
+            REC_ENDS.count += 1;
+        }
+        any_digest()
+    }
+}
+macro_rules! rec_ends {
+    ($name:ident, $n:expr) => {
+        #[derive(Debug, Clone, PartialEq)]
+        pub struct $name(pub EndsCore);
+        impl Default for $name {
+            fn default() -> Self {
+                $name(EndsCore::new())
+            }
+        }
+        impl OutputSizeUser for $name {
+            type OutputSize = U32;
+        }
+        impl FixedOutput for $name {
+            fn finalize_into(self, _out: &mut Output<Self>) {}
+        }
+        impl Update for $name {
+            fn update(&mut self, data: &[u8]) {
+                self.0.absorb(data)
+            }
+        }
+        impl HashChain for $name {
+            const OUTPUT_SIZE: u16 = $n;
+            const BLOCK_SIZE: u16 = 64;
+            fn finalize(self) -> ArrayVec<[u8; 32]> {
+                ArrayVec::from_array_len(self.0.emit(), $n)
+            }
+            fn finalize_reset(&mut self) -> ArrayVec<[u8; 32]> {
+                let r = self.0.emit();
+                self.0 = EndsCore::new();
+                ArrayVec::from_array_len(r, $n)
+            }
+            fn do_actual_hash_chain(&mut self, hc_data: &mut HashChainData, from: usize, to: usize) {
+                unsafe { REC_ENDS.chains += 1; }
+                if from < to {
+                    let d = any_digest();
+                    hc_data[23..].copy_from_slice(&d[..$n]);
+                }
+            }
+        }
+    };
+}
+rec_ends!(RecEnds16, 16);
+rec_ends!(RecEnds32, 32);
